@@ -96,7 +96,7 @@ theorem wf_terminate_after (w : World) (h : WF w) : After (terminate w).1 := by
 def acqInv (c : Call) (p : Pt) (w : World) : Bool :=
   if p == .sockAcq then
     (match c with
-     | .connect | .listen => w.s.bound
+     | .connect | .listen | .recv | .poll _ _ => w.s.bound
      | .send _ _ => w.s.kind == .dlc || w.s.bound
      | _ => true)
   else true
@@ -107,11 +107,11 @@ theorem acq_terminate_return (c : Call) (p : Pt) (w : World) (a2 : Act) (hv : va
     (hinv : acqInv c p w = true) (hal : allowed c w = true) (hq : quiet a2 = true) :
     finishesGood (run c 4 (.at p w) [.term, a2]) = true := by
   rcases c with (⟨dw, len⟩ | _ | _ | _ | _ | _ | _ | ⟨ev, t⟩ | _) <;> (try cases dw) <;> (try cases ev) <;> (try cases t) <;>
-  cases p <;> simp [validAcq] at hv <;>
-  cases a2 <;> simp [quiet] at hq <;>
-  cases hkind : w.s.kind <;> simp [allowed, hkind] at hal <;> cases hvs : w.viaSap <;>
-  rcases hwf with ⟨h1, h2, h3⟩ | ⟨h1, ⟨h2, h3⟩ | ⟨h2, h3⟩⟩ <;> simp [acqInv, hkind, h2] at hinv <;>
-  simp [hkind] at h3 <;> term_simp
+  cases p <;> (try simp [validAcq] at hv) <;>
+  cases a2 <;> (try simp [quiet] at hq) <;>
+  cases hkind : w.s.kind <;> (try simp [allowed, hkind] at hal) <;> cases hvs : w.viaSap <;>
+  rcases hwf with ⟨h1, h2, h3⟩ | ⟨h1, ⟨h2, h3⟩ | ⟨h2, h3⟩⟩ <;> (try simp [acqInv, hkind, h2] at hinv) <;>
+  (try simp [hkind] at h3) <;> term_simp
 
 set_option maxHeartbeats 3200000 in
 /-- a call issued on a socket of a terminated link -/
@@ -120,17 +120,47 @@ theorem later_return (c : Call) (w : World) (a1 a2 : Act) (hw : After w) (hal : 
     finishesGood (run c 4 (start c w) [a1, a2]) = true := by
   obtain ⟨ht, hr, hs, hd, hst⟩ := hw
   rcases c with (⟨dw, len⟩ | _ | _ | _ | _ | _ | _ | ⟨ev, t⟩ | _) <;> (try cases dw) <;> (try cases ev) <;> (try cases t) <;>
-  cases a1 <;> simp [quiet] at hq1 <;> cases a2 <;> simp [quiet] at hq2 <;>
-  cases hkind : w.s.kind <;> simp [allowed, hkind] at hal <;> cases hb : w.s.bound <;>
-  rcases hst with ⟨h2, h3⟩ | ⟨h2, h3⟩ <;> simp [hkind, hb] at h2 h3 <;> term_simp
+  cases a1 <;> (try simp [quiet] at hq1) <;> cases a2 <;> (try simp [quiet] at hq2) <;>
+  cases hkind : w.s.kind <;> (try simp [allowed, hkind] at hal) <;> cases hb : w.s.bound <;>
+  rcases hst with ⟨h2, h3⟩ | ⟨h2, h3⟩ <;> (try simp [hkind, hb] at h2 h3) <;> term_simp
 
 /-- every call starts at a lock acquisition point of its own (or ends at once) -/
 theorem start_valid (c : Call) (w : World) (p : Pt) (w' : World) (h : start c w = .at p w') :
     validAcq c p = true ∧ acqInv c p w' = true := by
   rcases c with (⟨dw, len⟩ | _ | _ | _ | _ | _ | _ | ⟨ev, t⟩ | _) <;> (try cases ev) <;>
   cases hkind : w.s.kind <;> cases hb : w.s.bound <;> cases hsa : w.sapAlive <;> cases hsd : w.sdAlive <;>
-  simp [start, hkind, hb, hsa, hsd, raise, ret, withS] at h <;>
-  (try split at h) <;> simp_all [validAcq, acqInv, withS]
+  cases hst : w.s.st <;>
+  simp (config := { failIfUnchanged := false }) [start, hkind, hb, hsa, hsd, hst, raise, ret, withS] at h <;>
+  (try (rcases h with ⟨rfl, rfl⟩)) <;>
+  simp_all (config := { failIfUnchanged := false }) [validAcq, acqInv, withS]
+
+set_option maxHeartbeats 3200000 in
+/-- a resumed or continued call stands again at a point of its own -/
+theorem exec_valid (c : Call) (p : Pt) (w : World) (p' : Pt) (w' : World) (hv : validPt c p = true)
+    (hk : kindOK w p = true) (h : exec c p w = .at p' w') : validPt c p' = true ∧ kindOK w' p' = true := by
+  rcases c with (⟨dw, len⟩ | _ | _ | _ | _ | _ | _ | ⟨ev, t⟩ | _) <;> (try cases dw) <;> (try cases ev) <;>
+  cases p <;> (try simp [validPt, validWait, validAcq] at hv) <;>
+  cases hkind : w.s.kind <;> (try simp [kindOK, hkind] at hk) <;>
+  cases hq : w.s.recvQ <;> cases hvs : w.viaSap <;>
+  simp (config := { failIfUnchanged := false }) [exec, body, bodyRecv, bodySend, bodyAccept, bodyConnect, bodyListen, bodyClose,
+    bodyPoll, takeRecv, closeGot, pollRecvNow, recvGot, acceptGot, connectGot, closeFinish, dlcSendLoop, dlcSendTail,
+    resolveLoop, doBind, ret, raise, withS, hkind, hq, hvs] at h <;>
+  (repeat' (split at h)) <;>
+  simp_all (config := { failIfUnchanged := false }) [validPt, validWait, validAcq, kindOK, withS, tcoClose] <;>
+  (try (rcases h with ⟨rfl, rfl⟩)) <;>
+  simp_all (config := { failIfUnchanged := false }) [validPt, validWait, validAcq, kindOK, withS, tcoClose]
+
+set_option maxHeartbeats 3200000 in
+/-- the service loops end when their socket calls give the results of a terminated link -/
+theorem service_exit (w : World) (p : SPt) (hw : After w) : serviceRun w 3 p = .exited := by
+  obtain ⟨ht, hr, hs, hd, hst⟩ := hw
+  cases p <;> cases hkind : w.s.kind <;> cases hb : w.s.bound <;>
+  rcases hst with ⟨h2, h3⟩ | ⟨h2, h3⟩ <;> (try simp [hkind, hb] at h2 h3) <;>
+  simp_all (config := { failIfUnchanged := false })
+    [serviceRun, resultAfter, SPt.call, serviceStep, classify, run, exec, start, body, bodyRecv, bodySend, bodyAccept,
+     bodyConnect, bodyListen, bodyClose, bodyPoll, takeRecv, closeGot, pollRecvNow, applyAct, Pt.isWait, ret, raise,
+     closeFinish, dlcSendLoop, dlcSendTail, Sock.isEst, Sock.estOrCw, withS, tcoClose, callTimeout, List.headD,
+     EBADF, EINVAL, EPIPE, EMSGSIZE, EOPNOTSUPP, ENOTCONN, ESHUTDOWN]
 
 theorem loop_terminates (r : Role) (c : Cause) : (loopEnd r c).terminateCalled = true := by
   cases c <;> rfl
